@@ -81,3 +81,5 @@ mod ensure;
 mod matrix;
 mod query;
 mod subgraph;
+#[cfg(feature = "verif-hooks")]
+mod verif;
